@@ -50,20 +50,20 @@ func fastsszTypes(p *core.Prog) []sszType {
 
 // declared limits named in the statement: type.field -> (outer, inner)
 var declaredLimits = map[string][2]int64{
-	"portalwire.Offer.ContentKeys":       {64, 2048},
-	"portalwire.FindContent.ContentKey":  {2048, 0},
-	"portalwire.Nodes.Enrs":              {32, 2048},
-	"portalwire.Enrs.Enrs":               {32, 2048},
-	"portalwire.FindNodes.Distances":     {256, 2},
-	"portalwire.Ping.Payload":            {1100, 0},
-	"portalwire.Pong.Payload":            {1100, 0},
-	"portalwire.ConnectionId.Id":         {2, 0},
-	"portalwire.Accept.ConnectionId":     {2, 0},
-	"portalwire.AcceptV1.ConnectionId":   {2, 0},
-	"portalwire.Accept.ContentKeys":      {64, 0},
-	"portalwire.AcceptV1.ContentKeys":    {64, 0},
-	"portalwire.Content.Content":         {2048, 0},
-	"types/history.OfferEphemeralHeader.Header":   {2048, 0},
+	"portalwire.Offer.ContentKeys":                 {64, 2048},
+	"portalwire.FindContent.ContentKey":            {2048, 0},
+	"portalwire.Nodes.Enrs":                        {32, 2048},
+	"portalwire.Enrs.Enrs":                         {32, 2048},
+	"portalwire.FindNodes.Distances":               {256, 2},
+	"portalwire.Ping.Payload":                      {1100, 0},
+	"portalwire.Pong.Payload":                      {1100, 0},
+	"portalwire.ConnectionId.Id":                   {2, 0},
+	"portalwire.Accept.ConnectionId":               {2, 0},
+	"portalwire.AcceptV1.ConnectionId":             {2, 0},
+	"portalwire.Accept.ContentKeys":                {64, 0},
+	"portalwire.AcceptV1.ContentKeys":              {64, 0},
+	"portalwire.Content.Content":                   {2048, 0},
+	"types/history.OfferEphemeralHeader.Header":    {2048, 0},
 	"types/history.EphemeralHeaderPayload.Payload": {256, 2048},
 }
 
